@@ -184,6 +184,14 @@ class World:
                                  "latitude": [10.0, 9.5], "longitude": [100.0, 100.5]})
         era["d2fd"].values[0, 0, 0, 0, 0] = np.nan
         self.native["era5"] = era
+        # datasets ALREADY in the library's own layout (a native dataset converted earlier in the session): handing one to a converter or
+        # to read_dataset again is a call like any other
+        import wavespectra.input.ww3 as _iww3
+        import wavespectra.input.ncswan as _incswan
+        self.converted = {"ww3": _iww3.from_ww3(self.native["ww3"].copy(deep=True)), "ncswan": _incswan.from_ncswan(self.native["ncswan"].copy(deep=True))}
+        for k, c in self.converted.items():
+            c.attrs = {"source": "converted " + k}
+            c["efth"].attrs = dict(c["efth"].attrs, mine="yes")
         fx = file_fixtures()
         self.swanfiles = list(fx["swan"])           # listed east first: not in file-name order
         self.triaxysfiles = list(fx["triaxys"])     # listed latest first
@@ -192,12 +200,12 @@ class World:
         return [self.ds, self.buffer, self.qlons_np, self.qlats_np, self.qlons_list, self.qlats_list, self.qlons_da, self.qlats_da,
                 self.dset_lons, self.dset_lats, self.bboxes, self.freq_kwargs, self.dir_kwargs, self.stats_dict, self.tgt_freq, self.tgt_dir,
                 self.native["ww3"], self.native["ncswan"], self.native["wwm"], self.native["era5"], self.ds1d, self.time_encoding, self.buoy, self.onedir, self.nanf32,
-                self.swanfiles, self.triaxysfiles]
+                self.swanfiles, self.triaxysfiles, self.converted["ww3"], self.converted["ncswan"]]
 
     NAMES = ["dataset", "caller buffer", "query lons (ndarray)", "query lats (ndarray)", "query lons (list)", "query lats (list)",
              "query lons (DataArray)", "query lats (DataArray)", "dset_lons", "dset_lats", "bboxes list", "freq_kwargs", "dir_kwargs",
              "stats dict", "target freq", "target dir list", "native WW3 dataset", "native SWAN-nc dataset", "native WWM dataset", "native ERA5 dataset", "1-D spectra dataset", "time_encoding dict", "single-buoy dataset (scalar lon/lat)", "one-direction DataArray", "float32 C-ordered spectra with NaN bins",
-             "list of SWAN file names", "list of TRIAXYS file names"]
+             "list of SWAN file names", "list of TRIAXYS file names", "dataset converted from WW3 earlier", "dataset converted from SWAN-nc earlier"]
 
 
 def xr_full(da, v):
@@ -258,6 +266,9 @@ def ops_table():
         "from_wwm": lambda W: iwwm.from_wwm(W.native["wwm"]),
         "from_era5": lambda W: iera5.from_era5(W.native["era5"]),
         "read_dataset_ww3": lambda W: read_dataset(W.native["ww3"]),
+        "from_ww3_again": lambda W: iww3.from_ww3(W.converted["ww3"]),
+        "from_ncswan_again": lambda W: incswan.from_ncswan(W.converted["ncswan"]),
+        "read_dataset_converted": lambda W: read_dataset(W.converted["ww3"]),
         "read_dataset_ncswan": lambda W: read_dataset(W.native["ncswan"]),
         "to_swan": lambda W: W.ds.spec.to_swan(os.path.join(W.tmp, "a.spec")),
         "to_swan_ntime": lambda W: W.ds.spec.to_swan(os.path.join(W.tmp, "b.spec"), ntime=2),
